@@ -107,8 +107,45 @@ package main
 //@   assigns nothing
 //@ trusted func isDeprecatedMethod(method) res
 //@   assigns nothing
-//@ trusted func clientSignature(g, method, named) res
+// The method signatures emitted into the interfaces and implementations: built by
+// string concatenation. Identifiers of other packages come from
+// g.QualifiedGoIdent(pkg.Ident(...)) only, and the stream type named is the one
+// of the method's streaming kind.
+//@ macro viaIdentS(s seq) bool = nolit(s, "http.") && nolit(s, "context.") && nolit(s, "errors.") && nolit(s, "strings.") && nolit(s, "connect.")
+//@ trusted func (*protogen.GeneratedFile).Annotate(g, symbol, loc)
 //@   assigns nothing
+//@   doc: "Annotate associates a symbol in a generated Go file with a location in a source .proto file (metadata only: it emits no Go text and leaves the descriptors alone)."
+//@ trusted func (*protogen.GeneratedFile).QualifiedGoIdent(g, ident) res
+//@   assigns nothing
+//@   doc: "QualifiedGoIdent returns the string to use for a Go identifier. If the identifier is from a different Go package than the generated file, the returned name will be qualified (package.name) and an import statement for the identifier's package will be included in the file."
+//@ func clientSignature(g, method, named) res
+//@   tags C17
+//@   requires g != nil && method != nil && method.Desc != nil
+//@   nosafety
+//@   assigns nothing
+//@   ensures viaIdentS(res)   // label: package-qualifiers-only-through-Ident
+//@   assert@call((protogen.GoImportPath).Ident): islit(arg1, "BidiStreamForClient") ==> streamsClient(method.Desc) && streamsServer(method.Desc) // label: bidi_stream_type
+//@   assert@call((protogen.GoImportPath).Ident): islit(arg1, "ClientStreamForClient") ==> streamsClient(method.Desc) && !streamsServer(method.Desc) // label: client_stream_type
+//@   assert@call((protogen.GoImportPath).Ident): islit(arg1, "ServerStreamForClient") ==> !streamsClient(method.Desc) && streamsServer(method.Desc) // label: server_stream_type
+//@   assert@call((protogen.GoImportPath).Ident): islit(arg1, "Context") ==> arg0 == contextPackage // label: Context-is-context.Context
+//@   assert@call((protogen.GoImportPath).Ident): !islit(arg1, "Context") ==> arg0 == connectPackage // label: stream-types-are-the-library's
+//@ func serverSignatureParams(g, method, named) res
+//@   tags C17
+//@   requires g != nil && method != nil && method.Desc != nil
+//@   nosafety
+//@   assigns nothing
+//@   ensures viaIdentS(res)   // label: package-qualifiers-only-through-Ident
+//@   assert@call((protogen.GoImportPath).Ident): islit(arg1, "BidiStream") ==> streamsClient(method.Desc) && streamsServer(method.Desc) // label: bidi_stream_type
+//@   assert@call((protogen.GoImportPath).Ident): islit(arg1, "ClientStream") ==> streamsClient(method.Desc) && !streamsServer(method.Desc) // label: client_stream_type
+//@   assert@call((protogen.GoImportPath).Ident): islit(arg1, "ServerStream") ==> !streamsClient(method.Desc) && streamsServer(method.Desc) // label: server_stream_type
+//@   assert@call((protogen.GoImportPath).Ident): islit(arg1, "Context") ==> arg0 == contextPackage // label: Context-is-context.Context
+//@   assert@call((protogen.GoImportPath).Ident): !islit(arg1, "Context") ==> arg0 == connectPackage // label: stream-types-are-the-library's
+//@ func serverSignature(g, method) res
+//@   tags C17
+//@   requires g != nil && method != nil && method.Desc != nil
+//@   nosafety
+//@   assigns nothing
+//@   ensures viaIdentS(res)   // label: package-qualifiers-only-through-Ident
 //@ func deprecated(g)
 //@   tags C17
 //@   assigns nothing
@@ -151,6 +188,7 @@ package main
 //@   assert@call((protogen.GoImportPath).Ident): islit(arg1, "NewUnaryHandler") ==> !streamsClient(method.Desc) && !streamsServer(method.Desc) // label: unary_constructor
 //@   assert@call((*protogen.GeneratedFile).P): vprefix(arg1, 0, "mux.Handle(") ==> vlit(arg1, 0, "mux.Handle(\"") && vstr(arg1, 1) == canonicalPath(method) && vlit(arg1, 2, "\", ") // label: route_is_canonical_path
 //@   assert@call((*protogen.GeneratedFile).P): vprefix(arg1, 0, "\"") ==> vlit(arg1, 0, "\"") && vstr(arg1, 1) == canonicalPath(method) && vlit(arg1, 2, "\",") && vcount(arg1) == 3 // label: spec_label_is_canonical_path
+//@   assert@call((*protogen.GeneratedFile).P): vprefix(arg1, 0, "svc.") ==> vlit(arg1, 0, "svc.") && vstr(arg1, 1) == method.GoName && vlit(arg1, 2, ",") && vcount(arg1) == 3 // label: the-handler-is-the-implementation's-method-of-the-Go-name
 //@   assert@call((*protogen.GeneratedFile).P): vprefix(arg1, 0, "return ") ==> vlit(arg1, 0, "return \"/") && vstr(arg1, 1) == fullname(service.Desc) && vlit(arg1, 2, "/\", mux") && vcount(arg1) == 3 // label: mount_prefix
 
 //@ func generateClientImplementation(g, service, names)
@@ -175,8 +213,6 @@ package main
 // GoImportPath.Ident (which records the import and renames it on a clash);
 // no literal piece of emitted text spells a package qualifier itself.
 //@ macro viaIdent(v ref) bool = vnolit(v, "http.") && vnolit(v, "context.") && vnolit(v, "errors.") && vnolit(v, "strings.") && vnolit(v, "connect.")
-//@ trusted func serverSignature(g, method) res
-//@   assigns nothing
 //@ func generatePreamble(g, file)
 //@   tags C17
 //@   requires g != nil
@@ -193,25 +229,25 @@ package main
 //@     invariant true
 //@ func generateClientInterface(g, service, names)
 //@   tags C17
-//@   requires g != nil
+//@   requires g != nil && methodsOK(service)
 //@   nosafety
-//@   assigns everything
+//@   assigns nothing
 //@   assert@call((*protogen.GeneratedFile).P): viaIdent(arg1)   // label: package-qualifiers-only-through-Ident
 //@   loop 1:
 //@     invariant true
 //@ func generateServerInterface(g, service, names)
 //@   tags C17
-//@   requires g != nil
+//@   requires g != nil && methodsOK(service)
 //@   nosafety
-//@   assigns everything
+//@   assigns nothing
 //@   assert@call((*protogen.GeneratedFile).P): viaIdent(arg1)   // label: package-qualifiers-only-through-Ident
 //@   loop 1:
 //@     invariant true
 //@ func generateUnimplementedServerImplementation(g, service, names)
 //@   tags C17
-//@   requires g != nil
+//@   requires g != nil && methodsOK(service)
 //@   nosafety
-//@   assigns everything
+//@   assigns nothing
 //@   assert@call((*protogen.GeneratedFile).P): viaIdent(arg1)   // label: package-qualifiers-only-through-Ident
 //@   loop 1:
 //@     invariant true
